@@ -141,7 +141,7 @@ theorem pattern_relabel {n : Nat} (hn : n = 3 ∨ n = 4) {E : HG} (hE : WF E) {S
   have hb' : (patBits n (relabelHG π E) (relabelSet π S)).length = (hyperedges n).length := by
     unfold patBits; rw [List.length_map, length_hyperedgesOf hlen']
   unfold pattern
-  apply applyPerm_toMask _ _ _ (hyperedges n).length hb htlen (fun p hp => (htfacts p hp).1) htsurj ?_ hb'
+  apply applyPerm_toMask _ _ _ (hyperedges n).length hb htlen htsurj ?_ hb'
   intro p hp
   obtain ⟨htp, hes⟩ := htfacts p hp
   -- the p-th sub-hyperedge of S' and the t[p]-th of S
